@@ -107,6 +107,8 @@ func runHarness(l *loaded, spec HarnessSpec, trace bool, dumpDir string) *Harnes
 	m.ExecReal["container/heap"] = true
 	m.ExecReal["io"] = true
 	m.ExecReal["sort"] = true
+	m.ExecReal["slices"] = true
+	m.ExecReal["cmp"] = true
 	m.Trace = trace
 	if spec.Unwind > 0 {
 		m.Unwind = spec.Unwind
